@@ -80,4 +80,101 @@ Proof.
   - intros g Gg. destruct (P_eq_dec g a) as [->|Hne]; [assumption|]. constructor. left. auto.
   - intros g [[Gg _]| ->]; [constructor; assumption|]. apply cl_br; [constructor; assumption|constructor; assumption|assumption].
 Qed.
+
+(* adding the product of two anticommuting members changes nothing *)
+Theorem cl_add_product (G : P -> Prop) a b :
+  G a -> G b -> anti a b = true ->
+  forall p, Cl G p <-> Cl (fun g => G g \/ g = mul a b) p.
+Proof.
+  intros Ga Gb Hab p. split; apply cl_mono.
+  - intros g Gg. constructor. left. exact Gg.
+  - intros g [Gg| ->]; [constructor; exact Gg|]. apply cl_br; [constructor; exact Ga|constructor; exact Gb|exact Hab].
+Qed.
+
+(* the closure depends on the generator set only *)
+Theorem cl_ext (G H : P -> Prop) : (forall g, G g <-> H g) -> forall p, Cl G p <-> Cl H p.
+Proof. intros E p. split; apply cl_mono; intros g Hg; constructor; apply E; exact Hg. Qed.
+
+(* idempotence *)
+Theorem cl_idem (G : P -> Prop) p : Cl (Cl G) p <-> Cl G p.
+Proof. split; [apply cl_mono; auto|intros H; constructor; exact H]. Qed.
+
+(* transport: the step the reduction uses when it multiplies a vertex by the product of two legs *)
+Theorem cl_transport (G : P -> Prop) z u w :
+  Cl G (mul z u) -> Cl G u -> Cl G w -> anti u w = true -> anti z u = false -> anti z w = false ->
+  Cl G (mul z w).
+Proof.
+  intros Hzu Hu Hw Huw Hzu0 Hzw0.
+  assert (E : mul z w = mul (mul z u) (mul u w)).
+  { rewrite mul_assoc. f_equal. rewrite (mul_comm u (mul u w)), (mul_comm u w). symmetry. apply mul_self. }
+  rewrite E. apply cl_br; [exact Hzu|apply cl_br; assumption|].
+  rewrite anti_mul_l, !anti_mul_r, Hzu0, Hzw0, anti_self, Huw. reflexivity.
+Qed.
+
+(* F2-span *)
+Inductive Span (G : P -> Prop) : P -> Prop :=
+| sp_gen g : G g -> Span G g
+| sp_mul a b : Span G a -> Span G b -> Span G (mul a b).
+Theorem cl_subset_span G p : Cl G p -> Span G p.
+Proof. induction 1; [constructor; assumption|apply sp_mul; assumption]. Qed.
+
+(* quadratic-form obstruction: a function q with q(ab) = q a + q b + <a,b> that is 1 on the generators is 1 on the closure *)
+Theorem cl_quadratic (G : P -> Prop) (q : P -> bool) :
+  (forall a b, q (mul a b) = xorb (xorb (q a) (q b)) (anti a b)) ->
+  (forall g, G g -> q g = true) -> forall p, Cl G p -> q p = true.
+Proof.
+  intros Hq HG p. induction 1 as [g Hg|a b _ IHa _ IHb Hab]; [auto|]. rewrite Hq, IHa, IHb, Hab. reflexivity.
+Qed.
+
+(* every member of the closure is a left-normed product g0 g1 ... gk of generators, each new factor
+   anticommuting with the product so far (i.e. a non-vanishing nested commutator) *)
+Fixpoint chain (t : P) (l : list P) : option P :=
+  match l with
+  | [] => Some t
+  | g :: l' => if anti t g then chain (mul t g) l' else None
+  end.
+Theorem cl_is_chain (G : P -> Prop) p : Cl G p <-> exists g l, G g /\ Forall G l /\ chain g l = Some p.
+Proof.
+  rewrite cl_is_orbits. split.
+  - intros [g [Hg O]]. exists g.
+    revert Hg. induction O as [|t h Ht IH Hh Hth]; intros Hg.
+    + exists []. repeat split; auto.
+    + destruct (IH Hg) as [l [_ [Hl Hc]]]. exists (l ++ [h]). repeat split; auto.
+      * apply Forall_app. split; [exact Hl|constructor; auto].
+      * clear -Hc Hth. revert g Hc. induction l as [|x l IHl]; intros g Hc; cbn [chain app] in *.
+        -- injection Hc as <-. rewrite Hth. reflexivity.
+        -- destruct (anti g x); [|discriminate]. apply IHl. exact Hc.
+  - intros [g [l [Hg [Hl Hc]]]]. exists g. split; [exact Hg|].
+    assert (Gen : forall t, Orb G g t -> chain t l = Some p -> Orb G g p).
+    { clear Hc. induction l as [|x l IHl]; intros t Ot Hc; cbn [chain] in Hc.
+      - injection Hc as <-. exact Ot.
+      - destruct (anti t x) eqn:E; [|discriminate]. inversion Hl; subst.
+        apply (IHl H2 (mul t x)); [econstructor; eauto|exact Hc]. }
+    apply (Gen g); [constructor|exact Hc].
+Qed.
 End S.
+
+(* transport along a map preserving product and symplectic form *)
+Section Hom.
+Variables (P Q : Type) (mulP : P -> P -> P) (antiP : P -> P -> bool) (mulQ : Q -> Q -> Q) (antiQ : Q -> Q -> bool).
+Variable f : P -> Q.
+Hypothesis f_mul : forall a b, f (mulP a b) = mulQ (f a) (f b).
+Hypothesis f_anti : forall a b, antiQ (f a) (f b) = antiP a b.
+Theorem cl_hom_fwd (G : P -> Prop) p : Cl P mulP antiP G p -> Cl Q mulQ antiQ (fun q => exists g, G g /\ q = f g) (f p).
+Proof.
+  induction 1 as [g Hg|a b _ IHa _ IHb Hab]; [constructor; eauto|].
+  rewrite f_mul. apply cl_br; [exact IHa|exact IHb|]. rewrite f_anti. exact Hab.
+Qed.
+Theorem cl_hom_bwd (G : P -> Prop) q : Cl Q mulQ antiQ (fun q => exists g, G g /\ q = f g) q ->
+  exists p, q = f p /\ Cl P mulP antiP G p.
+Proof.
+  induction 1 as [q [g [Hg ->]]|a b _ [pa [-> Ha]] _ [pb [-> Hb]] Hab].
+  - exists g. split; [reflexivity|constructor; exact Hg].
+  - exists (mulP pa pb). split; [symmetry; apply f_mul|]. apply cl_br; [exact Ha|exact Hb|]. rewrite <- f_anti. exact Hab.
+Qed.
+Hypothesis f_inj : forall a b, f a = f b -> a = b.
+Theorem cl_hom (G : P -> Prop) p : Cl P mulP antiP G p <-> Cl Q mulQ antiQ (fun q => exists g, G g /\ q = f g) (f p).
+Proof.
+  split; [apply cl_hom_fwd|]. intros H. destruct (cl_hom_bwd G (f p) H) as [p' [E Hp']]. apply f_inj in E. subst. exact Hp'.
+Qed.
+End Hom.
